@@ -23,7 +23,8 @@ WS = [' ', '\t', '\n', '\r', '\x0b', '\x0c', '\x1c', '\x1f', '\x85', '\xa0', '\u
 ODD = ['\u0130', '\u01c5', '\xdf', '\xc9', '\u03a9', '\u0131']   # I-dot, Dz-caron titlecase, sharp s, E-acute, Omega, dotless i
 # every character the driver may be sent: ASCII, Latin-1, and the few others the generators use.
 # U+03A3 (capital sigma) is left out on purpose: its lower-casing depends on the context.
-ALPHABET = [chr(i) for i in range(256)] + WS + ODD + ['\u0307', '\u01c6', '\u03c9', '\u01c4']
+ALPHABET = [chr(i) for i in range(256)] + WS + ODD + ['\u0307', '\u01c6', '\u03c9', '\u01c4',
+                                                       '\ufb01', '\u03bf', '\u03c2', '\u039f']   # fi ligature, omicron, final sigma, Omicron
 
 _key_re = re.compile(r'^[-:\w\s\.\+]$', re.UNICODE)
 _ws_re = re.compile(r'^\s$', re.UNICODE)
